@@ -7,6 +7,11 @@ use std::sync::Mutex;
 use crate::json::Json;
 
 pub const VERIF_DIR: &str = "/verif";
+
+/// Where evidence and replay files are written (the mutation sweep redirects them to a scratch directory).
+pub fn out_dir() -> String {
+    std::env::var("VERIF_OUT_DIR").unwrap_or_else(|_| VERIF_DIR.to_string())
+}
 pub const REPO_DIR: &str = "/repo";
 
 pub fn sha256_hex(data: &[u8]) -> String {
@@ -181,7 +186,7 @@ pub struct Violation {
 }
 
 pub fn write_replay(v: &Violation, tier: &str, root_seed: u64) -> String {
-    let dir = format!("{VERIF_DIR}/replays/{}", v.property);
+    let dir = format!("{}/replays/{}", out_dir(), v.property);
     let _ = std::fs::create_dir_all(&dir);
     let name = format!(
         "{}-{}-{}-{}.json",
@@ -279,7 +284,7 @@ pub struct Evidence {
 
 impl Evidence {
     pub fn write(&self) {
-        let dir = format!("{VERIF_DIR}/evidence");
+        let dir = format!("{}/evidence", out_dir());
         let _ = std::fs::create_dir_all(&dir);
         let j = Json::Obj(vec![
             ("property_id".into(), Json::str(&self.property)),
